@@ -18,6 +18,8 @@ func init() {
 	commands["c09"] = func(e *env) { fullStack(e, "C09", 9) }
 	commands["c08"] = func(e *env) { fullStack(e, "C08", 8) }
 	commands["c01c"] = func(e *env) { fullStack(e, "C01", 21) } // L1 = chunked handler, real clock
+	commands["c01b"] = func(e *env) { fullStack(e, "C01", 22) } // both tiers through the batching pools
+	commands["c09b"] = func(e *env) { fullStack(e, "C09", 29) } // the same for the TTL histories
 }
 
 // one step of a full-stack history, as written into replays and evidence
@@ -34,6 +36,8 @@ type fsCase struct {
 	Proto  string   `json:"proto"`
 	Keys   []string `json:"keys"`
 	Steps  []fsStep `json:"steps"`
+	// SingleRd: the locking wrapper in single-reader mode (plain mutexes) instead of multi-reader
+	SingleRd bool `json:"single_reader,omitempty"`
 }
 
 const t0 = 1700000000 // logical clock origin (a realistic unix time; absolute-past TTLs 2592001..t0 exist)
@@ -206,7 +210,7 @@ func genReq(r *rig.Rand, proto string, deploy string, now int64, w *rig.Writer) 
 }
 
 func genCase(r *rig.Rand, mode int, deploy string, locked bool, proto string, nsteps int, w *rig.Writer) fsCase {
-	c := fsCase{Deploy: deploy, Locked: locked, Proto: proto, Keys: fsKeys}
+	c := fsCase{Deploy: deploy, Locked: locked, Proto: proto, Keys: fsKeys, SingleRd: locked && r.Bool()}
 	now := int64(t0)
 	if chunkedL1 {
 		now = time.Now().Unix() // only used for the absolute-far TTL class
@@ -254,6 +258,17 @@ func runCase(c fsCase, w *rig.Writer, refReplies [][]byte, noEvict bool) (coq st
 		b.L1.RealClock = func() int64 { return time.Now().Unix() }
 		b.L2.RealClock = b.L1.RealClock
 	}
+	sock1, sock2 := "", ""
+	if batchedTiers {
+		// both tiers are served by handlers/memcached/batched over unix sockets of the fakes
+		sock1, sock2 = newSock(sockEnv), newSock(sockEnv)
+		ln1, err1 := b.L1.ListenUnix(sock1)
+		ln2, err2 := b.L2.ListenUnix(sock2)
+		if err1 != nil || err2 != nil {
+			rig.Die("listen: %v %v", err1, err2)
+		}
+		defer func() { ln1.Close(); ln2.Close(); b.L1.CloseAll(); b.L2.CloseAll() }()
+	}
 	mainOrca := "l1l2"
 	if c.Deploy == "l1only" {
 		mainOrca = "l1only"
@@ -264,7 +279,7 @@ func runCase(c fsCase, w *rig.Writer, refReplies [][]byte, noEvict bool) (coq st
 		if cn, ok := conns[port]; ok {
 			return cn
 		}
-		cn := stack.Dial(b, stack.Config{Orca: orcaOf[port], Locked: c.Locked, MultiRd: !chunkedL1, L1: l1kind, Proto: c.Proto})
+		cn := stack.Dial(b, stack.Config{Orca: orcaOf[port], Locked: c.Locked, MultiRd: !chunkedL1 && !c.SingleRd, L1: l1kind, Proto: c.Proto, L1Sock: sock1, L2Sock: sock2})
 		conns[port] = cn
 		return cn
 	}
@@ -364,6 +379,12 @@ var mode2NT bool
 // clock (the handler reads time.Now() itself)
 var chunkedL1 bool
 
+// batchedTiers: full-stack runs in which L1 and L2 are served by the batching pools
+var (
+	batchedTiers bool
+	sockEnv      *env
+)
+
 func truncCase(c fsCase, n int) fsCase {
 	d := c
 	if n < len(c.Steps) {
@@ -389,12 +410,18 @@ func caseTags(c fsCase) []string {
 }
 
 func fullStack(e *env, prop string, mode int) {
+	pooled := false
+	if mode == 29 { // the TTL histories of mode 9 with both tiers through the batching pools
+		pooled, mode = true, 9
+	}
 	w := rig.NewWriter(e.out, prop, e.tier, e.seed)
 	w.Shards = 16
 	r := rig.NewRand(e.seed + uint64(mode)*1000003)
 	ttlBeyond = mode == 9
 	withStat = mode == 8
 	chunkedL1 = mode == 21
+	batchedTiers = mode == 22 || pooled
+	sockEnv = e
 	var cases []fsCase
 	if rp := replayArg(e); rp != "" {
 		var c fsCase
@@ -408,6 +435,12 @@ func fullStack(e *env, prop string, mode int) {
 		maxLen := 40
 		if e.tier == "thorough" {
 			per, maxLen = 600, 60
+		}
+		if batchedTiers { // every case leaves two pools behind (they keep trying to reconnect)
+			per = 8
+			if e.tier == "thorough" {
+				per = 50
+			}
 		}
 		deploys := []string{"l1only", "l1l2", "l1l2+batch"}
 		if mode == 2 {
@@ -423,7 +456,7 @@ func fullStack(e *env, prop string, mode int) {
 						}
 						cases = append(cases, genCase(r, mode, deploy, locked, proto, n, w))
 					}
-					if e.tier == "thorough" {
+					if e.tier == "thorough" && !batchedTiers {
 						cases = append(cases, genCase(r, mode, deploy, locked, proto, 1500, w))
 					}
 				}
@@ -460,6 +493,9 @@ func fullStack(e *env, prop string, mode int) {
 	fn := fmt.Sprintf("check01 %d", mode)
 	if mode == 21 {
 		fn = "check01c"
+	}
+	if mode == 22 {
+		fn = "check01 1" // the batching pools behave like the direct handlers (C06): same step model
 	}
 	if err := w.Finish([]string{"base.Bytes", "base.Harness", "spec.MapSpec", "orca.Types", "proto.Resp", "checks.Check01"}, "case01", fn); err != nil {
 		rig.Die("%v", err)
